@@ -198,6 +198,40 @@ theorem allow_connects_literal (v6ok : Bool) (lit : Sock) :
     connectDecision true v6ok (.addr lit) = .connect lit := by
   simp [connectDecision]
 
+/-- **A name that resolves only to non-global addresses is refused**, whatever the number and order of
+the answers: no connection attempt is made to any of them -/
+theorem host_without_global_answer_refused (v6ok : Bool) (answers : List Sock)
+    (h : ∀ a ∈ answers, isGlobal a.ip = false) (b : Sock) :
+    connectDecision false v6ok (.host (some answers)) ≠ .connect b := by
+  intro hb
+  obtain ⟨hg, pre, post, e, _, _⟩ := connect_only_global v6ok _ b hb
+  have := h b (by rw [e]; simp)
+  rw [hg] at this
+  cases this
+
+/-- a resolver error or an empty answer is reported as a failure, never connected anywhere -/
+theorem no_answer_no_connection (allow v6ok : Bool) :
+    connectDecision allow v6ok (.host none) = .resolveFailed ∧
+    connectDecision allow v6ok (.host (some [])) = .resolveFailed := by
+  simp [connectDecision, selectLoop]
+
+/-- the resolver's answers behind the first suitable one do not matter -/
+theorem answers_after_first_suitable_irrelevant (allow v6ok : Bool) (pre post post' : List Sock) (a : Sock)
+    (st : Option Sel) (hf : (a.ip.isV6 && !v6ok) = false) (hg : (isGlobal a.ip || allow) = true) :
+    selectLoop allow v6ok st (pre ++ a :: post) = selectLoop allow v6ok st (pre ++ a :: post') := by
+  induction pre generalizing st with
+  | nil => simp [selectLoop, hf, hg]
+  | cons x xs ih =>
+    simp only [List.cons_append]
+    unfold selectLoop
+    split
+    · exact ih st
+    · split
+      · rfl
+      · split
+        · exact ih _
+        · exact ih _
+
 example : connectDecision false true (.host (some [⟨.v4 10 0 0 1, 80⟩, ⟨.v4 8 8 8 8, 80⟩]))
     = .connect ⟨.v4 8 8 8 8, 80⟩ := by decide +kernel
 example : connectDecision false true (.host (some [⟨.v4 127 0 0 1, 80⟩, ⟨.v4 10 0 0 1, 80⟩])) = .nonroutable := by decide +kernel
